@@ -1069,8 +1069,8 @@ impl TimeUtilities for DateTime {
     }
 
     fn sub_hours(&self, hours: u32) -> Self {
-        let total_nanos = self.days as i128 * NANOS_PER_DAY as i128
-            + sub_hours(self.nanoseconds as i64, hours) as i128;
+        let total_nanos =
+            self.days as i128 * NANOS_PER_DAY as i128 + sub_hours(self.nanoseconds as i64, hours);
 
         let (days, nanoseconds) = nanos_to_days_nanos(total_nanos).unwrap_or_else(|_| {
             panic!(
@@ -1088,7 +1088,7 @@ impl TimeUtilities for DateTime {
 
     fn sub_minutes(&self, minutes: u32) -> Self {
         let total_nanos = self.days as i128 * NANOS_PER_DAY as i128
-            + sub_minutes(self.nanoseconds as i64, minutes) as i128;
+            + sub_minutes(self.nanoseconds as i64, minutes);
 
         let (days, nanoseconds) = nanos_to_days_nanos(total_nanos).unwrap_or_else(|_| {
             panic!(
@@ -1106,7 +1106,7 @@ impl TimeUtilities for DateTime {
 
     fn sub_seconds(&self, seconds: u32) -> Self {
         let total_nanos = self.days as i128 * NANOS_PER_DAY as i128
-            + sub_seconds(self.nanoseconds as i64, seconds) as i128;
+            + sub_seconds(self.nanoseconds as i64, seconds);
 
         let (days, nanoseconds) = nanos_to_days_nanos(total_nanos).unwrap_or_else(|_| {
             panic!(
@@ -1123,8 +1123,8 @@ impl TimeUtilities for DateTime {
     }
 
     fn sub_millis(&self, millis: u32) -> Self {
-        let total_nanos = self.days as i128 * NANOS_PER_DAY as i128
-            + sub_millis(self.nanoseconds as i64, millis) as i128;
+        let total_nanos =
+            self.days as i128 * NANOS_PER_DAY as i128 + sub_millis(self.nanoseconds as i64, millis);
 
         let (days, nanoseconds) = nanos_to_days_nanos(total_nanos).unwrap_or_else(|_| {
             panic!(
@@ -1141,8 +1141,8 @@ impl TimeUtilities for DateTime {
     }
 
     fn sub_micros(&self, micros: u32) -> Self {
-        let total_nanos = self.days as i128 * NANOS_PER_DAY as i128
-            + sub_micros(self.nanoseconds as i64, micros) as i128;
+        let total_nanos =
+            self.days as i128 * NANOS_PER_DAY as i128 + sub_micros(self.nanoseconds as i64, micros);
 
         let (days, nanoseconds) = nanos_to_days_nanos(total_nanos).unwrap_or_else(|_| {
             panic!(
